@@ -94,6 +94,17 @@ CHECKS["C07"] = (
     "DESIGN.md 6 (C07)",
 )
 
+CHECKS["C10"] = (
+    "model_checking",
+    "exhaustive enumeration of all well-formed token sequences of the expression grammar up to bounded length (plus BFS over evaluation histories) against a precedence-climbing reference evaluator",
+    "Every well-formed expression of <=6 tokens over 6 atoms, <=7 over 3 and 5 atoms, <=6 over atoms incl. the identifiers u/x, and <=3 tokens "
+    "over 39 literal/identifier/sizeof forms (thorough: 7/8/9 tokens), with three spacings, is evaluated twice by the real evaluator and "
+    "compared with the reference (C precedence, left associativity, unbounded ints; context before constants). BFS over all histories of "
+    "<=3 (4) evaluations x 4 contexts per expression object: each result equals a fresh object's. Expressions through #define chains, enum "
+    "values and array sizes.",
+    "DESIGN.md 6 (C10)",
+)
+
 NOT_APPLICABLE = {}
 
 
